@@ -147,6 +147,7 @@ struct default_color_converter_impl<hsv_t,rgb_t>
          i = static_cast<uint32_t>(floor(h));
 
          frac = h - i;
+         i %= 6; // hue is periodic: hue 1 (sector 6) denotes the same colour as hue 0
 
          p = get_color( src, value_t() )
            * ( 1.f - get_color( src, saturation_t() ));
